@@ -215,6 +215,12 @@ def r2(ctx):
         return
     msgvar = L._parent.targets[0].id if isinstance(L._parent, ast.Assign) and isinstance(L._parent.targets[0], ast.Name) else "msg"
     args = [norm(a) for a in ec[0].args]
+    # (a value read back from the attribute it was stored in one statement earlier is that value: self.session_salt = msg.salt)
+    for k_, a_ in enumerate(args):
+        if a_.startswith("self.") and a_ != "self.session_key":
+            sts = [n for n in cfg.stmts((ast.Assign,)) if len(n.ast.targets) == 1 and norm(n.ast.targets[0]) == a_]
+            if len(sts) == 1 and cfg.dominates(sts[0].id, cfg.node_of(ec[0]).id) and sts[0].id != cfg.node_of(ec[0]).id:
+                args[k_] = norm(sts[0].ast.value)
     ctx.check(args == ["self.session_key", "%s.server_pubkey" % msgvar, "%s.salt" % msgvar], "C02.R2", fi, ec[0],
               "the session key is derived from the own ephemeral key and the verified server key and salt", witness=args, line=ec[0].lineno)
     p = ec[0]._parent
